@@ -161,11 +161,12 @@ void OPNMIDIplay::applySetup()
     m_chipChannels.resize(synth.m_numChannels, OpnChannel());
     resetMIDIDefaults();
 #if defined(OPNMIDI_MIDI2VGM) && !defined(OPNMIDI_DISABLE_MIDI_SEQUENCER)
-    m_sequencerInterface->onloopStart = synth.m_loopStartHook;
-    m_sequencerInterface->onloopStart_userData = synth.m_loopStartHookData;
-    m_sequencerInterface->onloopEnd = synth.m_loopEndHook;
-    m_sequencerInterface->onloopEnd_userData = synth.m_loopEndHookData;
-    m_sequencer->setLoopHooksOnly(m_sequencerInterface->onloopStart != NULL);
+    // The VGM dumper brings its own loop hooks; otherwise the user's registered hooks stay in force
+    m_sequencerInterface->onloopStart = synth.m_loopStartHook ? synth.m_loopStartHook : hooks.onLoopStart;
+    m_sequencerInterface->onloopStart_userData = synth.m_loopStartHook ? synth.m_loopStartHookData : hooks.onLoopStart_userData;
+    m_sequencerInterface->onloopEnd = synth.m_loopEndHook ? synth.m_loopEndHook : hooks.onLoopEnd;
+    m_sequencerInterface->onloopEnd_userData = synth.m_loopEndHook ? synth.m_loopEndHookData : hooks.onLoopEnd_userData;
+    m_sequencer->setLoopHooksOnly(synth.m_loopStartHook != NULL);
 #endif
     // Reset the arpeggio counter
     m_arpeggioCounter = 0;
@@ -191,11 +192,12 @@ void OPNMIDIplay::partialReset()
     m_chipChannels.resize(synth.m_numChannels);
     resetMIDIDefaults();
 #if defined(OPNMIDI_MIDI2VGM) && !defined(OPNMIDI_DISABLE_MIDI_SEQUENCER)
-    m_sequencerInterface->onloopStart = synth.m_loopStartHook;
-    m_sequencerInterface->onloopStart_userData = synth.m_loopStartHookData;
-    m_sequencerInterface->onloopEnd = synth.m_loopEndHook;
-    m_sequencerInterface->onloopEnd_userData = synth.m_loopEndHookData;
-    m_sequencer->setLoopHooksOnly(m_sequencerInterface->onloopStart != NULL);
+    // The VGM dumper brings its own loop hooks; otherwise the user's registered hooks stay in force
+    m_sequencerInterface->onloopStart = synth.m_loopStartHook ? synth.m_loopStartHook : hooks.onLoopStart;
+    m_sequencerInterface->onloopStart_userData = synth.m_loopStartHook ? synth.m_loopStartHookData : hooks.onLoopStart_userData;
+    m_sequencerInterface->onloopEnd = synth.m_loopEndHook ? synth.m_loopEndHook : hooks.onLoopEnd;
+    m_sequencerInterface->onloopEnd_userData = synth.m_loopEndHook ? synth.m_loopEndHookData : hooks.onLoopEnd_userData;
+    m_sequencer->setLoopHooksOnly(synth.m_loopStartHook != NULL);
 #endif
 }
 
